@@ -1412,7 +1412,7 @@ pub fn run_free_seq(trace: &Trace) -> Vec<String> {
             }
             Op::Invalidate { k } => sut.invalidate(*k),
             Op::InvalidateAll => sut.invalidate_all(),
-            Op::InvalidateIf { p } => sut.invalidate_if(*p),
+            Op::InvalidateIf { p } => sut.invalidate_if(*p, &reg),
             Op::Sync => sut.sync(),
             Op::Advance { ns } => clock.advance(Duration::from_nanos(*ns)),
             _ => {}
